@@ -29,9 +29,10 @@ S(s) == [k |-> "str", s |-> s]
 N == [k |-> "nil"]
 L == [k |-> "list"]                       \* the list [1]
 M == [k |-> "map"]                        \* the map {"a": 1}
+V == [k |-> "void"]                       \* "no value": what an attribute expression such as a.b evaluates to
 
-ArgValues == IF Rich THEN {I(7), F(15), B(TRUE), S("x"), S("12"), N, L, M}   \* what a script passes to add_key
-             ELSE {I(7), F(15), B(TRUE), S("x"), N, L}
+ArgValues == IF Rich THEN {I(7), F(15), B(TRUE), S("x"), S("12"), N, L, M, V}   \* what a script passes to add_key
+             ELSE {I(7), F(15), B(TRUE), S("x"), N, L, V}
 
 Tenths(t) == IF t % 10 = 0 THEN ToString(t \div 10)
              ELSE ToString(t \div 10) \o "." \o ToString(t % 10)
@@ -39,7 +40,7 @@ ToStr(v) == CASE v.k = "int" -> ToString(v.n)
               [] v.k = "float" -> Tenths(v.t)
               [] v.k = "bool" -> IF v.b THEN "true" ELSE "false"
               [] v.k = "str" -> v.s
-              [] v.k = "nil" -> ""
+              [] v.k \in {"nil", "void"} -> ""
               [] v.k = "list" -> "[1]"
               [] v.k = "map" -> "{\"a\":1}"
 
@@ -81,12 +82,13 @@ Get(k) == IF ~Has(k) THEN [k |-> "absent"]
                  ELSE (IF k \in DOMAIN tags THEN S(tags[k]) ELSE N)
 
 \* stored form of a value written to a field
-Stored(v) == IF v.k \in {"list", "map"} THEN S(ToStr(v)) ELSE v
+Stored(v) == IF v.k \in {"list", "map"} THEN S(ToStr(v)) ELSE IF v.k = "void" THEN N ELSE v
 
 \* Point.Set
 SetP(k, v) ==
   IF Has(k) /\ meta[k].flag = "tag"
-    THEN /\ tags' = Put(tags, k, ToStr(v)) /\ UNCHANGED <<meta, fields>>
+    THEN \* a tag given "no value" is gone from the point; the key stays known as a tag (a later write makes it a tag again)
+         /\ tags' = (IF v.k = "void" THEN Drop(tags, k) ELSE Put(tags, k, ToStr(v))) /\ UNCHANGED <<meta, fields>>
     ELSE /\ fields' = Put(fields, k, Stored(v))
          /\ meta' = Put(meta, k, [dt |-> Stored(v).k, flag |-> "field"])
          /\ UNCHANGED tags
@@ -161,12 +163,13 @@ Spec == Init /\ [][Next]_vars
 (* ------------------------------ invariants ------------------------------ *)
 FieldKinds == {"int", "float", "bool", "str", "nil"}
 IndexAgrees ==
-  /\ DOMAIN meta = DOMAIN fields \cup DOMAIN tags
+  /\ DOMAIN fields \cup DOMAIN tags \subseteq DOMAIN meta
+  /\ \A k \in DOMAIN meta \ (DOMAIN fields \cup DOMAIN tags) : meta[k].flag = "tag"      \* only a tag given "no value"
   /\ \A k \in DOMAIN fields : meta[k].flag = "field" /\ meta[k].dt = fields[k].k
   /\ \A k \in DOMAIN tags : meta[k].flag = "tag" /\ meta[k].dt = "str"
 Disjoint == DOMAIN fields \cap DOMAIN tags = {}
 FieldTypes == \A k \in DOMAIN fields : fields[k].k \in FieldKinds
-ReadBack == \A k \in DOMAIN meta :
+ReadBack == \A k \in DOMAIN fields \cup DOMAIN tags :
               Get(k) = IF meta[k].flag = "field" THEN fields[k] ELSE S(tags[k])
 NoPhantom == \A k \in Keys : ~Has(k) => Get(k).k = "absent"
 \* every present key can be dropped, and renamed to any other name, taking its value along
@@ -181,8 +184,8 @@ StateRec == [meta |-> meta, fields |-> fields, tags |-> tags, meas |-> meas]
 \* condition (or absent) and the measurement is still the initial one: these are all replayed; the others
 \* (same operation on the same key state, different bystanders) are replayed as a 1-in-SampleOneIn sample.
 Bystander(k) == \/ ~Has(k)
-                \/ k = InitField /\ meta[k].flag = "field" /\ fields[k] = I(7)
-                \/ k = InitTag /\ meta[k].flag = "tag" /\ tags[k] = "tv"
+                \/ k = InitField /\ meta[k].flag = "field" /\ k \in DOMAIN fields /\ fields[k] = I(7)
+                \/ k = InitTag /\ meta[k].flag = "tag" /\ k \in DOMAIN tags /\ tags[k] = "tv"
 Canonical == /\ meas = "m0"
              /\ \A k \in Keys \ {lastop'.k, lastop'.k2} : Bystander(k)
 \* one record per selected transition (ACTION_CONSTRAINT): pre-state, operation, post-state
